@@ -120,6 +120,9 @@ func varyEnumCase(r *rand.Rand, b []byte) []byte {
 			return m
 		}
 		v := string(sub[2])
+		if r.Intn(8) == 0 {
+			return []byte(fmt.Sprintf("%q: %q", sub[1], "X-UNKNOWN-"+v)) // a value no table knows
+		}
 		switch r.Intn(3) {
 		case 0:
 			v = strings.ToLower(v)
